@@ -184,6 +184,10 @@ func genLive(g *vh.Gen) {
 	n := 0
 	for n < g.N(300, 6000) {
 		a := genAddress(g)
+		if g.Chance(0.06) {
+			// bare well-known names, as some clients send them (RFC 5321 allows RCPT TO:<Postmaster>)
+			a = flipCase(g, g.Pick("postmaster", "abuse", "root", "admin", "user"), 0.3)
+		}
 		if !liveOK(a) || len(a) > 400 {
 			continue
 		}
